@@ -418,8 +418,10 @@ Rt(s) ==
    of Update User 349) while a session of that account is live.  The session is told its new privileges in a User
    Access (354) transaction (353; the code sends none for 349 - the session then keeps deciding by, and knowing,
    its old set) and whatever it is told is what is decided and what the file says. *)
-Upd(s) ==
-  /\ accts' = [accts EXCEPT !["req"] = Priv, !["victim"] = s.S]
+Upd(s) ==   \* s.near # "none": a bystander account "near" (access s.B) whose login differs from the edited one only
+            \* in letter case / is a prefix / has it as a prefix, with its own live session: it is not touched
+  /\ accts' = IF s.near = "none" THEN [accts EXCEPT !["req"] = Priv, !["victim"] = s.S]
+                               ELSE [accts EXCEPT !["req"] = Priv, !["victim"] = s.S] @@ ("near" :> s.B)
   /\ last' = s /\ fx' = {"acct.modify"} /\ rep' = "ok"
   /\ UNCHANGED <<cap, live, banned, nm>>
 
@@ -431,7 +433,8 @@ Upd(s) ==
    lost a privilege does not get that privilege. *)
 Multi(s) ==
   LET a1 == [accts EXCEPT !["req"] = Priv, !["victim"] = s.a1]
-      kickOK == 23 \notin s.a1
+      kickOK == s.near = "none" /\ 23 \notin s.a1    \* s.near # "none": the target is the session of a protected bystander
+                                                    \* account whose login is a near variant of the edited one
       createOK == 14 \in s.a1 /\ s.want \subseteq s.a1
   IN
   /\ last' = s /\ nm' = nm
@@ -446,6 +449,43 @@ Multi(s) ==
             /\ rep' = IF createOK THEN "ok" ELSE "refused"
             /\ fx' = IF createOK THEN {"acct.create"} ELSE {}
             /\ UNCHANGED <<live, banned>>
+
+(* Batch: one Update User (349) request of the requester (access s.acc) with several entries, processed in order:
+     "modself"  the requester's own account is modified: its access becomes e.set
+     "renself"  the requester's own account is renamed (access e.set, normally unchanged)
+     "delete"   the account "spare" is deleted
+     "create"   a new account e.login with access e.set
+   The creator's bitmap that counts for an entry is the one in force after the entries before it.  The request
+   stops with an error reply at the first entry the requester may not perform; what was done stays done. *)
+RECURSIVE BatchRun(_, _, _, _)
+BatchRun(es, i, cur, made) ==
+  IF i > Len(es) THEN [made |-> made, bad |-> 0, cur |-> cur]
+  ELSE LET e == es[i] IN
+    CASE e.kind \in {"modself", "renself"} ->
+           IF 17 \in cur THEN BatchRun(es, i + 1, e.set, made) ELSE [made |-> made, bad |-> i, cur |-> cur]
+      [] e.kind = "delete" ->
+           IF 15 \in cur THEN BatchRun(es, i + 1, cur, made) ELSE [made |-> made, bad |-> i, cur |-> cur]
+      [] e.kind = "create" ->
+           IF 14 \in cur /\ e.set \subseteq cur
+             THEN BatchRun(es, i + 1, cur, made @@ (e.login :> [got |-> e.set, cap |-> cur]))
+             ELSE [made |-> made, bad |-> i, cur |-> cur]
+
+(* the requester's bitmap in force when entry k is processed (entries 1..k-1 applied) *)
+RECURSIVE CurAt(_, _, _)
+CurAt(es, k, acc) == IF k <= 1 THEN acc
+                     ELSE LET c == CurAt(es, k - 1, acc) IN
+                          IF es[k - 1].kind \in {"modself", "renself"} THEN es[k - 1].set ELSE c
+
+Batch(s) ==
+  LET r == BatchRun(s.entries, 1, s.acc, <<>>)
+      a1 == [accts EXCEPT !["req"] = r.cur]
+  IN
+  /\ accts' = a1 @@ [l \in DOMAIN r.made |-> r.made[l].got]
+  /\ cap' = cap @@ [l \in DOMAIN r.made |-> r.made[l].cap]
+  /\ rep' = IF r.bad = 0 THEN "ok" ELSE "refused"
+  /\ fx' = IF DOMAIN r.made # {} THEN {"acct.create"} ELSE {}
+  /\ last' = s
+  /\ UNCHANGED <<live, banned, nm>>
 
 (* Open: an account editor (access s.racc, holding Open User 16) opens the account "victim" (access s.S) with Get
    User (352) and lists the accounts (348); what it is sent is the account's set.  Holding Modify User (17) it saves
@@ -463,10 +503,14 @@ Guard(s) ==
                           /\ s.third \in {"none", "same", "other"} /\ s.pacc \subseteq Priv /\ s.shared \in BOOLEAN
     [] s.op = "rt"     -> s.S \subseteq Priv
     [] s.op = "upd"    -> s.S \subseteq Priv /\ s.old \subseteq Priv /\ s.via \in {349, 353}
+                          /\ s.near \in {"none", "case", "prefix", "suffix"} /\ s.B \subseteq Priv
     [] s.op = "open"   -> s.S \subseteq Priv /\ s.racc \subseteq Priv /\ 16 \in s.racc
+    [] s.op = "batch"  -> s.acc \subseteq Priv /\ Len(s.entries) \in 1..4
+                          /\ \A i \in DOMAIN s.entries : s.entries[i].kind \in {"modself", "renself", "delete", "create"}
+                                                           /\ s.entries[i].set \subseteq Priv
     [] s.op = "multi"  -> s.kind \in {"kick", "create"} /\ s.edit \in {349, 353} /\ s.n \in 1..3 /\ s.k \in 1..s.n
                           /\ s.a0 \subseteq Priv /\ s.a1 \subseteq Priv /\ s.ban \in {0, 1, 2} /\ s.via \in {349, 350}
-                          /\ s.want \subseteq Priv
+                          /\ s.want \subseteq Priv /\ s.near \in {"none", "case", "prefix", "suffix"}
     [] OTHER -> FALSE
 
 Apply(s) ==
@@ -477,12 +521,13 @@ Apply(s) ==
     [] s.op = "upd"    -> Upd(s)
     [] s.op = "multi"  -> Multi(s)
     [] s.op = "open"   -> Open(s)
+    [] s.op = "batch"  -> Batch(s)
 
 (* ---- properties ----------------------------------------------------------- *)
 Actor == IF last.op = "create" THEN last.by ELSE IF last.op = "multi" /\ last.kind = "create" THEN "victim" ELSE "req"
 
 (* C05: whatever happened is governed by a privilege the actor holds *)
-NoEffectWithoutPrivilege == \A e \in fx : Gov[e] \subseteq accts[Actor]
+NoEffectWithoutPrivilege == last.op # "batch" => \A e \in fx : Gov[e] \subseteq accts[Actor]   \* (batch: see NoAmplification / cap)
 
 (* C05: a requester holding the governing privilege of every effect of its request is not refused *)
 NeverRefusedWithPrivilege ==
